@@ -446,4 +446,13 @@ def witness_search(prop, o):
 
 
 if __name__ == "__main__":
-    sys.exit(main())
+    try:
+        rc = main()
+    except SystemExit:
+        raise
+    except BaseException as e:  # noqa: BLE001  — an internal error of the machinery is never an alarm
+        import traceback
+        traceback.print_exc()
+        print("INCONCLUSIVE: internal error of the checking machinery: %r" % (e,))
+        rc = 2
+    sys.exit(rc)
